@@ -760,10 +760,15 @@ fn gen_define(rng: &mut Rng, depth: usize) -> MOp {
     MOp::Define { pre, tk, tn, dk, a, b }
 }
 
-fn gen_read(rng: &mut Rng) -> MOp {
+/// Reads prefer what the program has touched (a read of an undefined name is only observable
+/// as the last thing a program does).
+fn gen_read(rng: &mut Rng, seen_cmd: &[(i64, i64)], seen_var: &[(i64, i64)]) -> MOp {
     if rng.chance(1, 2) {
-        let (tk, tn) = gen_target(rng);
+        let (tk, tn) = if !seen_cmd.is_empty() && rng.chance(5, 6) { *rng.pick(seen_cmd) } else { gen_target(rng) };
         MOp::ReadCmd { tk, tn }
+    } else if !seen_var.is_empty() && rng.chance(3, 4) {
+        let (kind, idx) = *rng.pick(seen_var);
+        MOp::ReadVar { kind, idx }
     } else {
         let kind = *rng.pick(&[0i64, 0, 1, 2, 3, 4, 5, 6]);
         let idx = if kind == 6 { *rng.pick(&[0i64, 1, 2, 5]) } else { rng.range(0, 3) };
@@ -777,44 +782,63 @@ fn gen_read(rng: &mut Rng) -> MOp {
 fn gen_ops(rng: &mut Rng, size: usize) -> Vec<MOp> {
     let mut ops = vec![];
     let mut depth = 0usize;
+    let mut seen_cmd: Vec<(i64, i64)> = vec![];
+    let mut seen_var: Vec<(i64, i64)> = vec![];
+    let note = |op: &MOp, seen_cmd: &mut Vec<(i64, i64)>, seen_var: &mut Vec<(i64, i64)>| match op {
+        MOp::Define { tk, tn, dk, a, .. } => {
+            seen_cmd.push((*tk, *tn));
+            if *dk == 4 {
+                seen_var.push((0, *a));
+            }
+            if *dk == 5 {
+                seen_var.push((3, *a));
+            }
+        }
+        MOp::Assign { kind, idx, .. } => seen_var.push((*kind, *idx)),
+        _ => {}
+    };
     let n1 = rng.range(1, size as i64) as usize;
     for _ in 0..n1 {
-        match rng.below(12) {
+        let op = match rng.below(12) {
             0 | 1 => {
-                ops.push(MOp::Begin);
                 depth += 1;
+                MOp::Begin
             }
             2 if depth > 0 && rng.chance(1, 2) => {
-                ops.push(MOp::End);
                 depth -= 1;
+                MOp::End
             }
-            3..=6 => ops.push(gen_assign(rng, depth)),
-            7..=10 => ops.push(gen_define(rng, depth)),
-            _ => ops.push(gen_read(rng)),
-        }
+            3..=6 => gen_assign(rng, depth),
+            7..=10 => gen_define(rng, depth),
+            _ => gen_read(rng, &seen_cmd, &seen_var),
+        };
+        note(&op, &mut seen_cmd, &mut seen_var);
+        ops.push(op);
     }
     ops.push(MOp::Ckpt);
-    let reads = |ops: &mut Vec<MOp>, rng: &mut Rng| {
+    let reads = |ops: &mut Vec<MOp>, rng: &mut Rng, seen_cmd: &[(i64, i64)], seen_var: &[(i64, i64)]| {
         for _ in 0..rng.range(2, 6) {
-            ops.push(gen_read(rng));
+            ops.push(gen_read(rng, seen_cmd, seen_var));
         }
     };
-    reads(&mut ops, rng);
+    reads(&mut ops, rng, &seen_cmd, &seen_var);
     loop {
         if rng.chance(1, 3) {
-            ops.push(if rng.chance(1, 2) { gen_assign(rng, depth) } else { gen_define(rng, depth) });
+            let op = if rng.chance(1, 2) { gen_assign(rng, depth) } else { gen_define(rng, depth) };
+            note(&op, &mut seen_cmd, &mut seen_var);
+            ops.push(op);
         }
         if depth == 0 {
             break;
         }
         ops.push(MOp::End);
         depth -= 1;
-        reads(&mut ops, rng);
+        reads(&mut ops, rng, &seen_cmd, &seen_var);
     }
     if rng.chance(1, 8) {
         ops.push(MOp::End); // one `}` too many: an error after the checkpoint
     }
-    reads(&mut ops, rng);
+    reads(&mut ops, rng, &seen_cmd, &seen_var);
     ops
 }
 
@@ -863,6 +887,13 @@ const FEATURES: &[(&str, &str)] = &[
     (r"\catcode`\^=7 \catcode`\|=12 ", r"\the\catcode`\^ |"),
     (r"\let\sA= A\let\sB=\sA ", r"\sA\sB"),
     (r"\tracingmacros=0 ", r"\the\tracingmacros"),
+    (r"\catcode`\^=7 ", r"^^41^^5a"),
+    (r"\def\mP#1{\def\mQ##1{#1##1}}\mP a", r"\mQ b\mP c\mQ d"),
+    (r"\def\mR{r}\def\mS{\mR s}\expandafter\def\expandafter\mU\expandafter{\mS}\def\mR{R}", r"\mU\mS"),
+    (r"\count6=4 \def\mI{\ifnum\count6<5 lt\else ge\fi}", r"\mI \count6=9 \mI"),
+    (r"\def\mV{v}\let\mW=\mV {\def\mV{w}\global\let\mW=\mV}", r"\mV\mW"),
+    (r"text with spaces % and a comment", r"more"),
+    (r"\relax", r"\relax z"),
     (r"word ", r"next"),
     (r"word", r"next"),
 ];
@@ -1093,6 +1124,9 @@ impl C08 {
         p1.push('\n');
         p2.push('\n');
         let (a, same) = self.compare_runs(&p1, &p2, drv, &mut o);
+        if debug() {
+            eprintln!("P1: {p1}P2: {p2}model: {m_ck}\nA: {:?} / {:?}", a.r1, a.r2);
+        }
         if !matches!(a.r1, Run::Ok(_)) {
             // the model must agree that P1 does not get to the checkpoint
             return o;
